@@ -88,9 +88,9 @@ def render(rnd, items, vars_, data_first):
     return "\n".join(tl + [".data"] + dl)
 
 
-def denote(items, vars_):
+def denote(items, vars_, size=4096):
     table = {}
-    top = 4095
+    top = size - 1
     mem = {}
     for n, vals in vars_:
         top -= len(vals)
@@ -116,12 +116,15 @@ def denote(items, vars_):
     return mem, pc
 
 
-def check(items, vars_, data_first, rnd):
+def check(items, vars_, data_first, rnd, size=None):
+    """size: a simulation configured with a smaller unified memory places its data downward from ITS top"""
     text = render(rnd, items, vars_, data_first)
-    want, n = denote(items, vars_)
+    want, n = denote(items, vars_, size or 4096)
     try:
-        t = ToySimulation()
+        t = ToySimulation() if size is None else ToySimulation(unified_memory_size=size)
         t.load_program(text)
+        if size is not None and size - 1 - sum(len(v) for _, v in vars_) < n:
+            return None, text          # (does not fit: the size check is not what is examined here)
     except Exception as e:
         return "%s: %s" % (type(e).__name__, str(e)[:80] or repr(e)[:80]), text
     got = {a: int(v) for a, v in t.state.memory.memory_file.items()}
@@ -160,24 +163,32 @@ def run(tier, seed):
     rand = ((lambda g: g)(gen(rnd, rnd.randint(0, 25), rnd.randint(0, 4), rnd.randint(0, 3))) for _ in range(1500 if tier == "quick" else 40000))
     for items, vars_, df in itertools.chain(small, rand):
         evals += 1
-        bad, text = check(items, vars_, df, rnd)
+        # every eighth program is assembled by a simulation with a smaller unified memory
+        size = [None, None, None, None, None, None, None, rnd.choice([64, 100, 1000, 2048])][evals % 8]
+        bad, text = check(items, vars_, df, rnd, size)
         inline = any(it[0] == "i" and it[3] for it in items)
         seen.add((tuple((it[0], it[1] if it[0] == "i" else None, bool(it[0] == "i" and it[3]), it[2][0] if it[0] == "i" and it[2] else None) for it in items), len(vars_), df))
         if bad and len(viol) < 5:
-            viol.append({"key": "C19:" + bad[:70], "what": bad, "text": text})
+            viol.append({"key": "C19:" + bad[:70], "what": bad, "text": text, "unified_memory_size": size,
+                         "expected_memory": {str(a): v for a, v in denote(items, vars_, size or 4096)[0].items()}})
         elif not bad and inline and len(samples) < 2 and len(text) < 300:
             samples.append({"text": text})
     return {"evaluations": evals, "distinct_nontrivial": len(seen), "violations": viol, "samples": samples or [{"text": "LDA 5"}],
-            "rule": "TOY program ASTs: exhaustive over sequences of <= 3 instructions from 5 templates (label operand, variable operands, numeric, no operand) x every placement of one label (in-line on each instruction, stand-alone anywhere incl. the end) x segment order; seeded random programs up to 25 instructions with up to 4 labels and 3 array variables, operands decimal/hex, mnemonic case, comments; plus the two documented examples executed; distinct by AST shape",
+            "rule": "(every eighth program is assembled by a simulation configured with a smaller unified memory: data is then placed downward from that memory's top) TOY program ASTs: exhaustive over sequences of <= 3 instructions from 5 templates (label operand, variable operands, numeric, no operand) x every placement of one label (in-line on each instruction, stand-alone anywhere incl. the end) x segment order; seeded random programs up to 25 instructions with up to 4 labels and 3 array variables, operands decimal/hex, mnemonic case, comments; plus the two documented examples executed; distinct by AST shape",
             "bound": "<= 25 instructions", "contract": "memory == {i: encoding of instruction i} + data downward from 4095 in declaration order, elements ascending; max_pc = n-1"}
 
 
 def replay(j):
+    """True = the contract holds now"""
     try:
-        t = ToySimulation()
+        t = ToySimulation() if not j.get("unified_memory_size") else ToySimulation(unified_memory_size=j["unified_memory_size"])
         t.load_program(j["text"])
-        print({a: hex(int(v)) for a, v in sorted(t.state.memory.memory_file.items())})
+        got = {str(a): int(v) for a, v in sorted(t.state.memory.memory_file.items())}
+        print({a: hex(v) for a, v in got.items()})
     except Exception as e:
         print("load raises", type(e).__name__, e)
+        got = None
     print("recorded:", j.get("what"))
+    if "expected_memory" in j:
+        return got == j["expected_memory"]
     return False
